@@ -1,6 +1,6 @@
 (** * C15: criteria omission removes exactly the requested share, weakest first.
     Structural facts hold for every carrier; arithmetic ones are on the exact-rational instance [NumQc]. *)
-From Coq Require Import ZArith QArith Qcanon Qround Bool List String Lia Lqa Psatz Permutation Sorted.
+From Coq Require Import ZArith QArith Qcanon Qround Bool List String Lia Lqa Permutation Sorted.
 From RDM Require Import Base.Num Base.NumQc Base.Util Model.Data Model.Rank Model.Utility Model.Levels Model.Heuristics
      Model.Electre Model.Listeners Model.Biases Check.Stage Check.BiasCheckers
      Proofs.SortFacts Proofs.RankFacts Proofs.LevelFacts Proofs.WfFacts.
